@@ -306,6 +306,15 @@ impl ProbeCore {
                 (k, Some(k))
             }
             Hint::Inexact => (0, Some(1_000_000)),
+            Hint::Inverted => {
+                let k = self
+                    .script
+                    .iter()
+                    .take_while(|e| matches!(e, Entry::S(_)))
+                    .count()
+                    .saturating_sub(self.produced);
+                (k + 2, Some(k))
+            }
             Hint::PanicEnd => {
                 let all = self
                     .script
